@@ -100,7 +100,12 @@ fn c(n: &str) -> String {
 
 pub const HAVING_ATOM: usize = 16;
 
-pub fn atoms() -> Vec<Atom> {
+pub fn atoms() -> &'static [Atom] {
+    static ATOMS: std::sync::OnceLock<Vec<Atom>> = std::sync::OnceLock::new();
+    ATOMS.get_or_init(build_atoms)
+}
+
+fn build_atoms() -> Vec<Atom> {
     vec![
         Atom { sql: "host = 'h1'", cp: || Some(ColumnPredicate::Eq(c("host"), s("h1"))), expr: || col("host").eq(lit("h1")),
                eval: |r| r.host.as_ref().map(|h| h == "h1"), in_where: true },
